@@ -60,7 +60,11 @@ class DBNInference(Inference):
         self._initialize_structures()
 
         self.interface_nodes_0 = model.get_interface_nodes(time_slice=0)
-        self.interface_nodes_1 = model.get_interface_nodes(time_slice=1)
+        # the outgoing interface of slice 1 is the slice-1 copy of the outgoing interface
+        # of slice 0 (not the set of children of the inter-slice edges)
+        self.interface_nodes_1 = [
+            type(node)(node[0], 1) for node in self.interface_nodes_0
+        ]
 
         start_markov_model = self.start_bayesian_model.to_markov_model()
         one_and_half_markov_model = self.one_and_half_model.to_markov_model()
